@@ -385,7 +385,9 @@ class Oracles:
         v = inf if v is None else v
         self.ops_seen.add("set_size")
         occupied = sum(1 for t in pm.tasks.values() if not t.finished() and not t.forgotten and (t.live or not t.started or t.ccb_running or (t.body_done and not t.ecb_n and not t.finished())))
-        waiting = sum(1 for r in pm.reqs if self.req_active(r))  # type: ignore[attr-defined]
+        occupied += pool.num_running + pool.num_cancelled
+        # a spawner that is still alive (even a cancelled one) may hold, or have been handed, a slot
+        waiting = sum(1 for r in pm.reqs if self.req_active(r) or (r.spawner is not None and not r.spawner.done()))  # type: ignore[attr-defined]
         if v < 0:
             snap = self.snapshot(pm)
             try:
